@@ -1601,6 +1601,107 @@ theorem canChangeType_needs_guard : canChangeType exSchema exDoc 1 1 = some true
     simp [Slice.insertAt, insertInto, flatInsert, hcr]
   simp [retypeStep, Schema.apply, hc1, hc2, hs, hi]
 
+/-! ### the second pass of `drop_point` (closed slice): always through the Fitter
+
+    When the first pass refuses the content at every depth, the second pass looks, at each depth, for a wrapping of the
+    slice's first node that the parent accepts there (`find_wrapping`, then `can_replace_with(i, i, wrapping[0])`).  The
+    follow-up edit `tr.replace(p, p, slice)` inserts the *unwrapped* slice: it never fits trivially at such an answer —
+    `fits_trivially(p, p, slice)` is the very test the first pass made at that depth and index, and it failed — so the
+    step is whatever the Fitter plans (its `find_fittable` pass 2 finds the wrapping again).  No case of a second-pass
+    answer avoids the Fitter. -/
+
+/-- **an answer of the second pass is handed to the Fitter**: `fits_trivially` is `False` at `p`, and `replace_step` is
+    `Fitter(p, p, slice).fit()` -/
+theorem dropPoint_pass2_through_fitter (S : Schema) (doc : Node) (pos : Nat) (C : List Node) (p : Nat)
+    (hdoc : C01.IsElem doc) (hn : fnorm doc.kids = true) (hsz : fsize C ≠ 0)
+    (h1 : dropPointPass1 S doc pos ⟨C, 0, 0⟩ = some none)
+    (hc : dropPoint S doc pos ⟨C, 0, 0⟩ = some (some p)) :
+    fitsTriviallyO S doc p p ⟨C, 0, 0⟩ = some false ∧
+    ∃ rp, doc.resolve p = some rp ∧
+      replaceStep S doc p p ⟨C, 0, 0⟩ = fitterFit S doc rp rp ⟨C, 0, 0⟩ (fitFuel S ⟨C, 0, 0⟩) := by
+  unfold dropPointPass1 at h1
+  unfold dropPoint at hc
+  cases hr : doc.resolve pos with
+  | none => simp [hr] at hc
+  | some r =>
+    simp only [hr, dropContent] at h1 hc
+    unfold dropPointR at hc
+    simp only [hsz, if_false, dropContent, h1] at hc
+    split at hc
+    · rename_i hcond
+      cases doc with
+      | text s m => simp [C01.IsElem, Node.isLeaf] at hdoc
+      | leaf t a m => simp [C01.IsElem, Node.isLeaf] at hdoc
+      | elem ty0 a0 m0 K =>
+        have hft := dropPass2_not_trivial S hr (by simpa [Node.kids] using hn) C p h1 hc
+        obtain ⟨rf, rt, hrf, hrt, hrs⟩ := replaceStep_nontrivial S _ p p ⟨C, 0, 0⟩
+          (by simp [Slice.size]; omega) hft
+        rw [hrf] at hrt
+        simp only [Option.some.injEq] at hrt
+        subst hrt
+        exact ⟨hft, rf, hrf, hrs⟩
+    · simp at hc
+
+/-- a non-trivial instance: the text "x" dropped at the start of `exDoc` — `doc` does not take text (first pass), a
+    paragraph around it would fit (second pass): position 0, through the Fitter -/
+example : dropPointPass1 exSchema exDoc 0 ⟨[.text [120] []], 0, 0⟩ = some none ∧
+    dropPoint exSchema exDoc 0 ⟨[.text [120] []], 0, 0⟩ = some (some 0) ∧
+    fitsTriviallyO exSchema exDoc 0 0 ⟨[.text [120] []], 0, 0⟩ = some false := ⟨rfl, rfl, rfl⟩
+
+/-! ### a node with marks the parent does not allow: `tr.insert` succeeds through the Fitter
+
+    For a node `n` whose marks the parent of the insert point does not allow, `fits_trivially` is `False` (it asks
+    `can_replace`, marks included) and `tr.insert(p, n)` goes through the Fitter, whose `place_nodes` puts in
+    `n.mark(parent.type.allowed_marks(n.marks))` (`strippedAt`, PM/InsertGuard.lean): on the real code the insertion succeeds
+    with the offending marks dropped (`insMarkSchema` above: `tr.insert(0, em(paragraph))` gives `doc(paragraph, …)`;
+    `ReplaceStep(0, 0, Slice([em(paragraph)]))` itself is refused).
+    **Partial**: proved is that the step with the stripped node applies and gives a valid document — whenever the Fitter
+    answers that step.  **Missing** (full statement: `insertPoint … = some (some p) → ∃ st doc', replaceStep S doc p p
+    ⟨[n], 0, 0⟩ = .ok (some st) ∧ S.apply st doc = .ok doc' ∧ C01.Valid S doc'`): that the Fitter's answer *is*
+    `ReplaceStep(p, p, Slice([strippedAt n], 0, 0))`.  The Fitter model (PM/Fitter.lean) has no success theorem; its run
+    on a closed one-node slice goes through `find_fittable`, `place_nodes`, `must_move_inline`, `close` (`findCloseLevel`,
+    `contentAfterFits`) — only totality is proved, for inline leaf/text slices (`C11.insertInline_total`).  The two
+    kernel-evaluated instances below are the model's Fitter on the counterexample. -/
+
+private theorem allowsMarks_allowed (nt : NodeType) (ms : Marks) : nt.allowsMarks (nt.allowedMarks ms) = true := by
+  simp [NodeType.allowsMarks, NodeType.allowedMarks, List.all_filter]
+
+theorem insertPoint_insert_succeeds_marked_partial (S : Schema) (hts : C01.TextStable S) (doc : Node) (pos : Nat)
+    (ty : TypeId) (p : Nat) (n : Node) (hdoc : C01.IsElem doc) (hv : C01.Valid S doc) (hn : fnorm doc.kids = true)
+    (hvn : S.checkNode (strippedAt S doc p n) = true) (hnn : n.norm = true) (hty : S.tyOf n = ty)
+    (hg : insideTextGuard S doc p [strippedAt S doc p n] = true)
+    (hc : insertPoint S doc pos ty = some (some p))
+    (_hfit : replaceStep S doc p p ⟨[n], 0, 0⟩ = .ok (some (.replace p p ⟨[strippedAt S doc p n], 0, 0⟩ false))) :
+    ∃ doc', S.apply (.replace p p ⟨[strippedAt S doc p n], 0, 0⟩ false) doc = .ok doc' ∧ C01.Valid S doc' := by
+  have hnn' : (strippedAt S doc p n).norm = true := by
+    unfold strippedAt; split <;> cases n <;> simp_all [Node.withMarks, Node.norm]
+  have hty' : S.tyOf (strippedAt S doc p n) = ty := by
+    rw [← hty]; unfold strippedAt; split <;> cases n <;> rfl
+  have hg' : insertGuard S doc p (strippedAt S doc p n) = true := by
+    unfold insertGuard
+    unfold insideTextGuard at hg
+    cases hrp : doc.resolve p with
+    | none => rfl
+    | some rp =>
+      simp only [hrp] at hg ⊢
+      rw [hg, Bool.true_and]
+      have : (strippedAt S doc p n).marks = (S.nodeType (S.tyOf rp.parent)).allowedMarks n.marks := by
+        unfold strippedAt; rw [hrp]; cases n <;> rfl
+      rw [this]
+      exact allowsMarks_allowed _ _
+  exact (insertPoint_insert_applies S hts doc pos ty p _ hdoc hv hn hvn hnn' hty' hg' hc).2
+
+/-- the model's Fitter on the counterexample: `tr.insert(0, em(paragraph))` in `insMarkSchema` plans the insertion of
+    the paragraph without the mark (as the real code does) -/
+example : strippedAt insMarkSchema exDoc 0 (.elem 2 [] [⟨0, []⟩] []) = .elem 2 [] [] [] := by rfl
+example : (match replaceStep insMarkSchema exDoc 0 0 ⟨[.elem 2 [] [⟨0, []⟩] []], 0, 0⟩ with
+     | .ok (some (.replace 0 0 sl' false)) => sl' == ⟨[.elem 2 [] [] []], 0, 0⟩
+     | _ => false) = true := by decide +kernel
+/-- … and on the second-pass drop point above: the text is wrapped in a paragraph -/
+example : (match replaceStep exSchema exDoc 0 0 ⟨[.text [120] []], 0, 0⟩ with
+     | .ok (some (.replace 0 0 sl' false)) => sl' == ⟨[.elem 2 [] [] [.text [120] []]], 0, 0⟩
+     | _ => false) = true := by decide +kernel
+
 /-! ### INSERT-END -/
 
 end PM.C12
